@@ -61,3 +61,29 @@ package broker
 //@   loop 1 invariant changed == (exists k string :: old(has(s.members, k)) && !has(s.members, k))
 //@   loop 1 invariant ite(old(has(s.members, s.leaderID)) && !has(s.members, old(s.leaderID)), s.leaderID == "", s.leaderID == old(s.leaderID))
 //@   loop 1 invariant keepsMap("string", "*memberState", s.members) && keepsMap("string", "[]assignmentTopic", s.assignments) && (forall g *groupState :: g != s ==> g.leaderID == old(g.leaderID))
+
+// Heartbeat: an accepted heartbeat (member current, answer NONE) records the time of the call as the member's last
+// heartbeat; a heartbeat from a current member refreshes the session in EVERY group phase (also while the answer
+// is REBALANCE_IN_PROGRESS), so that a member that keeps heartbeating is never expired.
+//@ func (c *GroupCoordinator) Heartbeat
+//@   ghost gnow time.Time = nil
+//@   ghost gstamped bool = false
+//@   at Now#1 after set gnow = ret0
+//@   at Now#1 after set gstamped = true
+//@   ensures [C43.accepted_heartbeat_refreshes_session] result.ErrorCode == protocol.NONE ==> gstamped && has(c.groups, req.Group) && has(c.groups[req.Group].members, req.MemberID) && c.groups[req.Group].members[req.MemberID].lastHeartbeat == gnow
+//@   ensures [C43.heartbeat_refreshes_in_every_phase] current(c, req.Group, req.MemberID, req.Generation) && c.groups[req.Group].members[req.MemberID] != nil ==> gstamped && c.groups[req.Group].members[req.MemberID].lastHeartbeat == gnow
+
+// JoinGroup records the time of the call as the joining member's last heartbeat.
+//@ func (c *GroupCoordinator) JoinGroup
+//@   ghost gnow time.Time = nil
+//@   at Now#1 after set gnow = ret0
+//@   at persistGroupLocked#1 before assert [C43.join_refreshes_session] has(state.members, memberID) && member == state.members[memberID] && member.lastHeartbeat == gnow
+
+// cleanupGroups applies both expiry rules to every cached group, with the time read at the start of the pass.
+//@ func (c *GroupCoordinator) cleanupGroups
+//@   ghost gnow time.Time = nil
+//@   at Now#1 after set gnow = ret0
+//@   at removeExpiredMembers#1 before assert [C43.cleanup_expires_at_current_time] arg0 == gnow && has(c.groups, groupID) && arg_recv == mapval(c.groups, groupID)
+//@   at dropRebalanceLaggers#1 before assert [C43.cleanup_drops_laggers_at_current_time] arg0 == gnow && has(c.groups, groupID) && arg_recv == mapval(c.groups, groupID)
+//@   at startRebalance#1 before assert [C43.cleanup_rebalances_after_removal] removed || lostDuringRebalance
+//@   ensures [C43.cleanup_visits_every_group] forall g string :: has(c.groups, g) ==> seen(1, g)
